@@ -70,7 +70,9 @@ Definition spec_stream (t : strace) : Prop :=
      (forall c, In c (handed_out e) -> Permutation (received_on c e) (emitted_on c e)) /\
      got_normal_close e = true) /\
   (* the client left first: every request is told to stop *)
-  (client_left_first e = true -> forall k, k < length (handed_out e) -> stop_seen k e = true).
+  (client_left_first e = true -> forall k, k < length (handed_out e) -> stop_seen k e = true) /\
+  (* the session's first request reached the service *)
+  served t = true.
 
 Definition spec (c : case) : Prop :=
   crashed_obs c = false /\
@@ -82,13 +84,13 @@ Proof.
   unfold check_stream, spec_stream. cbn zeta.
   set (e := evs t). rewrite !app_eq_nil_iff. rewrite clause_nil, forallb_forall.
   split.
-  - intros (H2 & H3 & H4). split; [|split].
+  - intros (H2 & H3 & H4 & H6). split; [|split; [|split]]; [| | |exact (proj1 (clause_nil 6 _) H6)].
     + intros c Hc. apply prefixb_spec, H2, nodup_In, Hc.
     + intros Hl Hs. rewrite Hl, Hs in H3. cbn in H3. apply clause_nil, andb_true_iff in H3 as [Ha Hb].
       split; auto. intros c Hc. rewrite forallb_forall in Ha. now apply same_bag_spec, Ha.
     + intros Hl k Hk. rewrite Hl in H4. apply clause_nil in H4. rewrite forallb_forall in H4.
       apply H4, in_seq. lia.
-  - intros (H2 & H3 & H4). split; [|split].
+  - intros (H2 & H3 & H4 & H6). split; [|split; [|split]]; [| | |exact (proj2 (clause_nil 6 _) H6)].
     + intros c Hc. apply prefixb_spec, H2. eapply nodup_In, Hc.
     + destruct (negb (left_in e) && service_ended e) eqn:E; auto.
       apply andb_true_iff in E as [El Es]. apply negb_true_iff in El.
